@@ -1,6 +1,7 @@
 """Per-property configuration: which obligation groups decide it, what is claimed, what is trusted."""
 
 TRUSTED_COMMON = [
+    'assumed contracts on callees: where a function under contract calls another one, the call is replaced by the callee\'s contract. Callee variants (c_*_callee, c_*_rec, c_*_prog, c_*_g, c_dv_*, c_*_r, c_step_any in VM::execute) restate - by hand, not mechanically - clauses of the contract that is enforced for that callee in its own group, some with a ghost record of the call added; a callee whose own group is a bounded stand-in passes that bound on. Purely trusted (no enforcing group): c_yylex (the flex scanner: any token), c_mS (the macro-extraction grammar S/D/MD/A: shapes only), the strtol/strtoul models (T5), callee-side validity of AST nodes below the node under contract',
     'T1: model/include/{vector,map,set,string,utility,algorithm} implement the C++ standard semantics of the container operations used (trusted model, not libstdc++ itself)',
     'T2: no reference/iterator into a vector is used after a push_back on it (reallocation is not modelled)',
     'T3: memory allocation succeeds (push_back assumes spare capacity; contracts require capacity for PREPARE) and sizes fit int (data.size()+count <= INT_MAX)',
